@@ -43,6 +43,7 @@ def params(draw, tier):
     p["vel_amp"] = draw(st.sampled_from([0.01, 0.03]))
     p["method"] = draw(st.sampled_from([None, None, None, "lsq", "lsq_linear"]))
     p["allow_negatives"] = draw(st.sampled_from([False, False, True]))
+    p["omit_defaults"] = draw(st.booleans())      # allow_negatives=True is the default: left out of the call
     p["fit"] = draw(st.sampled_from(["dlite", "taubinSVD"]))
     p["x0"] = draw(st.sampled_from(["none", "ones", "random", "with_zero", "warm_start"])) if p["method"] == "lsq" else "none"
     # an opening-angle limit removes interfaces from the system: 'number of interfaces' in the added row is then the
@@ -136,6 +137,8 @@ def solve_once(p, ctx):
     if fm.matrix.shape[0] == 0 or fm.matrix.shape[1] < 2:
         return None
     kw = {"allow_negatives": p["allow_negatives"]}
+    if p["allow_negatives"] and p.get("omit_defaults"):
+        kw = {}
     if p["method"]:
         kw["method"] = p["method"]
     if p["rhs"] == "velocity":
